@@ -21,6 +21,7 @@ func init() {
 		Explanation: "R1 order (ESP on sev.LaunchDigest): measurement events occur in the order ROM (Update with the constant PageTypeNormal) → zero-content metadata pages → VMSA pages (Update with PageTypeVmsa); a nil return needs the ROM event; the ROM event's address operand is RomTop − len(image) and the VMSA events' address is ProductHighAddress of the options' product. " +
 			"R2 kind table: the mapping from OVMF section kind to SNP page type covers exactly the section-kind constants declared in ovmf/abi, maps them to {unmeasured, secret, cpuid, zero} respectively (constants checked by value) and rejects every other kind. " +
 			"R3 purity: no store / copy in the call closure of LaunchDigest and UnsignedSnp writes through the image parameter. " +
+			"R3b no write in the closure of LaunchDigest / UnsignedSnp goes to a package-level variable (no shared scratch buffer or cache). " +
 			"R4 determinism: the closure of LaunchDigest calls no clock, random source or environment lookup and has no map iteration whose body extends the measurement. " +
 			"R6 declared order: every sort call in the call closure of LaunchDigest sorts a slice allocated in the same function (a copy), so the SNP metadata sections reach the measurement in the order the firmware declares them. " +
 			"R7 one boot VMSA per digest (ESP from UnsignedSnp and LaunchDigest): between two allocations of a measurement object the ROM is measured at most once and at most one VMSA list that starts with the boot processor's VMSA is measured (an incremental computation that re-measures a full list per count is reported; measuring a tail list[k:] is not). " +
@@ -543,6 +544,20 @@ func runC04(c *Ctx) {
 		}
 		if bad == 0 {
 			c.S.OK("R3", load.FuncName(root)+":image untouched", c.pos(root.Pos()), fmt.Sprintf("%d writes in the closure, none through the image parameter", len(ws)), true)
+		}
+		// R3b: the computation keeps no state outside the call: no package-level variable is written (a shared
+		// scratch buffer or cache makes the digest depend on other calls in flight or made before)
+		badG := 0
+		for _, w := range ws {
+			for _, rt := range w.Shared() {
+				if rt.Kind == flow.GlobalRoot {
+					badG++
+					c.S.Bad("R3b", load.FuncName(root)+"→"+load.FuncName(w.Fn)+":writes package-level state", c.pos(w.Instr.Pos()), fmt.Sprintf("the measurement computation writes %s of package-level variable %s: the digest is no longer a function of its inputs (concurrent or earlier computations interfere)", w.What, rt.V.Name()))
+				}
+			}
+		}
+		if badG == 0 {
+			c.S.OK("R3b", load.FuncName(root)+":no package-level state", c.pos(root.Pos()), fmt.Sprintf("%d writes in the closure, none to a package-level variable", len(ws)), true)
 		}
 	}
 
